@@ -11,7 +11,7 @@ KEEP = {
     "dg_send": ["e", "id", "port"], "dg_get": ["e"],
     "bind": ["e", "c", "bt", "host", "port", "draws"], "bind_poll": ["e", "c"], "next_bind": ["e"],
     "bind_reply": ["e", "r", "accept"], "bind_drop": ["e", "r"],
-    "task": ["e", "gr", "gs"], "bridge_start": ["e", "h"], "bridge_poll": ["e", "b", "env"], "bridge_drop": ["e", "b"], "fault": ["e", "kind"], "advance": ["d"], "inject": ["e", "m"], "take": ["e"],
+    "task": ["e", "gr", "gs", "gf"], "bridge_start": ["e", "h"], "bridge_poll": ["e", "b", "env"], "bridge_drop": ["e", "b"], "fault": ["e", "kind"], "advance": ["d"], "inject": ["e", "m"], "take": ["e"],
 }
 
 def split(lines):
